@@ -329,7 +329,9 @@ var vocab = []string{":=", "=", "+=", "-=", "*=", "/=", "%=", "|=", "^=", "&=", 
 	"switch", "case", "default", "$", "make", ";", ":", "range", "break", "continue", "struct", "interface", "iota", "nil", "true", "false", "error", "any", "int", "int32", "byte",
 	"uint8", "rune", "uint32", "uint", "int8", "int16", "int64", "uint16", "uint64", "bool", "string", "float64", "chan", "go", "<-", "->", "\n", "\n", ";",
 	"x", "y", "f", "T", "main", "fmt", "len", "append", "copy", "delete", "panic", "print", "println", "__type", "_", "init",
-	"0", "1", "42", "0x1f", "017", "1.5", "1e3", "\"s\"", "`raw`", "'c'", "'\\n'", "\"\"", "3000000000", "-1", "08", "0x", "1.", "'ab'", "\"unterminated", "/* c */", "// c\n", "#", "@", "~", "?", "\\"}
+	"0", "1", "42", "0x1f", "017", "1.5", "1e3", "\"s\"", "`raw`", "'c'", "'\\n'", "\"\"", "3000000000", "-1", "08", "0x", "1.", "'ab'", "\"unterminated", "/* c */", "// c\n", "#", "@", "~", "?", "\\",
+	// non-ASCII: punctuation, spaces, letters, symbols, emoji, a BOM, invalid UTF-8
+	"\u00d7", "\u201c", "\u201d", "\u00a0", "\u2192", "\u2026", "\u00e9", "\u65e5\u672c", "\u200b", "\U0001f600", "\ufeff", "\xff", "\xc3", "\u00ab", "\u2260", "\u03bb"}
 
 func genSoup(rt *rapid.T) string {
 	n := rx.Range(rt, "ntokens", 1, 60)
